@@ -12,6 +12,7 @@
 #include <sys/sendfile.h>
 #include <sys/socket.h>
 #include <atomic>
+#include <algorithm>
 #include <mutex>
 #include <thread>
 #include <chrono>
@@ -235,6 +236,7 @@ struct HttpMsg {
     std::string body;
     std::vector<size_t> chunkSizes;
     bool chunked = false; bool hasLength = false; size_t contentLength = 0;
+    std::vector<std::string> codings;   // the transfer codings of all Transfer-Encoding lines, in order, lower case
     size_t consumed = 0;          // bytes of input that belong to this message
     size_t headBytes = 0;
     std::string header(const std::string& name) const {
@@ -290,11 +292,16 @@ inline HttpMsg parse_http(const std::string& data, size_t off, bool isResponse, 
     m.headBytes = q - off;
     std::string te = m.header("Transfer-Encoding"), cl = m.header("Content-Length");
     if (m.count("Content-Length") > 1) { m.error = "more than one Content-Length"; return m; }
-    if (m.count("Transfer-Encoding") > 1) { m.error = "more than one Transfer-Encoding"; return m; }
+    // Transfer-Encoding = 1#transfer-coding: several field lines combine into one list (RFC 7230 3.2.2); chunked has to be the final coding and
+    // must not be applied twice (3.3.1) - with any other final coding the receiver cannot find the end of the message
+    for (auto& h : m.headers) if (strcasecmp(h.first.c_str(), "Transfer-Encoding") == 0) { size_t a = 0; while (a <= h.second.size()) { size_t b = h.second.find(',', a); if (b == std::string::npos) b = h.second.size(); std::string t = h.second.substr(a, b - a);
+            while (!t.empty() && (t.front() == ' ' || t.front() == '\t')) t.erase(0, 1); while (!t.empty() && (t.back() == ' ' || t.back() == '\t')) t.pop_back(); for (auto& ch : t) ch = (char)tolower((unsigned char)ch); if (!t.empty()) m.codings.push_back(t); a = b + 1; } }
     if (!te.empty() && !cl.empty()) { m.error = "both Content-Length and Transfer-Encoding"; return m; }
     bool noBody = isResponse && (headRequest || m.status / 100 == 1 || m.status == 204 || m.status == 304);
     if (!te.empty()) {
-        if (strcasecmp(te.c_str(), "chunked") != 0) { m.error = "transfer coding other than chunked"; return m; }
+        if (m.codings.empty() || m.codings.back() != "chunked") { m.error = "chunked is not the final transfer coding (Transfer-Encoding: " + te + ")"; return m; }
+        if (std::count(m.codings.begin(), m.codings.end(), std::string("chunked")) > 1) { m.error = "chunked applied more than once"; return m; }
+        for (auto& cd : m.codings) if (cd != "chunked" && cd != "gzip" && cd != "deflate" && cd != "compress" && cd != "identity" && cd != "x-gzip" && cd != "x-compress") { m.error = "unknown transfer coding '" + cd.substr(0, 20) + "'"; return m; }
         m.chunked = true;
         for (;;) {
             size_t e = data.find("\r\n", q);
